@@ -239,7 +239,7 @@ def draw_query(draw, fs):
 
 TRANSFORM_WEIGHTS = dict(slice=3, apply=2, stack=2, insert=2, rmsing=2,
                          reorder=2, rendim=2, interpsigma=2, interp=3,
-                         mask=2, eval=2, binop=2, copy=2)
+                         mask=2, eval=2, binop=6, copy=2)
 
 
 @st.composite
@@ -467,6 +467,8 @@ def _check_op(case, keep):
                 r.label('getTimes:with-time_bounds')
         if operand is not None:
             r.label('has-argument-file')
+            if name == 'binop':
+                r.label('binop-operand:' + call['args']['other'][0])
         inputs = [('receiver', f)]
         if operand is not None:
             inputs.append(('argument', operand))
